@@ -63,8 +63,10 @@ pub struct StreamMon {
     pub data_out: u64,
     pub counted_open: bool,
     pub in_frames_at_hdr_out: usize,
-    /// peer frames (other than PRIORITY / WINDOW_UPDATE / RST_STREAM) E processed on this
-    /// stream since E's last RST_STREAM
+    /// DATA / HEADERS frames of the peer that E processed on this stream and that have not
+    /// yet been "used" to justify a RST_STREAM(STREAM_CLOSED) answer. The instant at which
+    /// E decided to close the stream (e.g. an implicit handle drop) is not observable on
+    /// the wire, so any processed peer frame may be the late frame such an answer refers to.
     pub in_since_rst: u32,
     /// header blocks E emitted on this stream, decoded by the reference decoder
     pub blocks_out: Vec<(u8, bool, Fields)>,
@@ -80,7 +82,7 @@ impl StreamMon {
 pub struct EpMon {
     pub side: usize,
     pub is_client: bool,
-    pub events: VecDeque<Ev>,
+    pub events: VecDeque<(Ev, u64)>,
     pub in_idx: usize,
     pub out_idx: usize,
     pub peer_acked: SettingsView,
@@ -113,6 +115,7 @@ pub struct EpMon {
     pub max_conn_target: i64,
     pub hpack_dead: bool,
     pub settings_out: u64,
+    pub app_resets: BTreeMap<u32, u64>,
 }
 
 impl EpMon {
@@ -152,6 +155,7 @@ impl EpMon {
             max_conn_target: 65_535,
             hpack_dead: false,
             settings_out: 0,
+            app_resets: BTreeMap::new(),
         }
     }
 
@@ -174,6 +178,10 @@ pub struct Monitor {
     /// side -> is that side a real h2 endpoint (has an event log)?
     pub real: [bool; 2],
     pub parse_garbage: [bool; 2],
+    /// step at which the event being processed happened in the endpoint
+    pub ev_step: u64,
+    /// diagnostic call-site markers reported by the endpoints (hook H3)
+    pub notes: [std::collections::BTreeSet<(&'static str, u32)>; 2],
 }
 
 fn name(side: usize) -> &'static str {
@@ -195,6 +203,8 @@ impl Monitor {
             step: 0,
             real,
             parse_garbage: [false, false],
+            ev_step: 0,
+            notes: Default::default(),
         }
     }
 
@@ -216,8 +226,13 @@ impl Monitor {
         }
     }
 
-    pub fn push_events(&mut self, side: usize, evs: &[Ev]) {
-        self.ep[side].events.extend(evs.iter().copied());
+    pub fn push_events(&mut self, side: usize, evs: &[Ev], step: u64) {
+        self.ep[side].events.extend(evs.iter().map(|e| (*e, step)));
+    }
+
+    /// The application of `side` reset the stream or dropped its last handle at `step`.
+    pub fn note_app_reset(&mut self, side: usize, sid: u32, step: u64) {
+        self.ep[side].app_resets.entry(sid).or_insert(step);
     }
 
     /// Process as many endpoint events as the taps allow.
@@ -227,10 +242,11 @@ impl Monitor {
                 continue;
             }
             loop {
-                let ev = match self.ep[side].events.front() {
+                let (ev, ev_step) = match self.ep[side].events.front() {
                     Some(e) => *e,
                     None => break,
                 };
+                self.ev_step = ev_step;
                 match ev {
                     Ev::RawFrameIn => {
                         let k = self.ep[side].in_idx;
@@ -245,6 +261,10 @@ impl Monitor {
                         self.ep[side].in_idx += 1;
                         self.ep[side].events.pop_front();
                         self.on_in(side, &f);
+                    }
+                    Ev::Note { site, id } => {
+                        self.ep[side].events.pop_front();
+                        self.notes[side].insert((site, id));
                     }
                     Ev::FrameOut => {
                         // need the complete frame group (HEADERS/PUSH_PROMISE + CONTINUATIONs)
@@ -329,11 +349,11 @@ impl Monitor {
             DATA => {
                 let len = f.payload.len() as i64;
                 e.conn_data_in += len;
+                let app_reset = e.app_resets.get(&f.sid).map(|t| self.ev_step >= *t).unwrap_or(false);
                 if let Some(s) = e.streams.get_mut(&f.sid) {
                     s.data_in += len;
-                    if s.rst_out > 0 {
-                        s.in_since_rst += 1;
-                    }
+                    let _ = app_reset;
+                    s.in_since_rst += 1;
                     if f.end_stream() {
                         s.end_in = true;
                     }
@@ -365,6 +385,7 @@ impl Monitor {
     }
 
     fn in_headers_done(&mut self, side: usize, first: &RawFrame) {
+        let ev_step = self.ev_step;
         let e = &mut self.ep[side];
         let iws = e.peer_acked.iws as i64;
         if first.ty == PUSH_PROMISE {
@@ -384,6 +405,7 @@ impl Monitor {
             // HEADERS on a locally-numbered stream E never opened: peer violation
             return;
         }
+        let app_reset = e.app_resets.get(&sid).map(|t| ev_step >= *t).unwrap_or(false);
         let s = e.streams.entry(sid).or_default();
         if is_new {
             s.local_init = false;
@@ -393,9 +415,8 @@ impl Monitor {
             }
         }
         s.hdr_in = true;
-        if s.rst_out > 0 {
-            s.in_since_rst += 1;
-        }
+        let _ = app_reset;
+        s.in_since_rst += 1;
         if first.end_stream() {
             s.end_in = true;
         }
@@ -916,7 +937,9 @@ impl Monitor {
         // reset and answer later ones with RST_STREAM(STREAM_CLOSED); such an answer to a
         // late peer frame is not a second reset of the stream by the application.
         let late_answer = n > 1 && code == STREAM_CLOSED && s.in_since_rst > 0;
-        s.in_since_rst = 0;
+        if late_answer {
+            s.in_since_rst -= 1;
+        }
         if s.counted_open {
             s.counted_open = false;
             e.open_local -= 1;
